@@ -1,6 +1,6 @@
 #!/usr/bin/env python3
 """Sweep the bounded-exhaustive program family outside the registered checks (exploration aid, e.g. under `vp run`):
-   enumsweep.py <maxsize> <stride> <offset> [maxlen] [minsize]
+   enumsweep.py <maxsize> <stride> <offset> [maxlen] [minsize] [A|B = dialect]
 compiles every selected program, reports compiler crashes, and runs Conform (source semantics), LangMC (ambiguity) and
 MachineMC (spin / stall) over the accepted ones.  Prints one REPORT block per program with a report."""
 import sys, os, time, collections
@@ -18,7 +18,8 @@ maxlen = int(sys.argv[4]) if len(sys.argv) > 4 else 7
 minsize = int(sys.argv[5]) if len(sys.argv) > 5 else 1
 t = time.time()
 items, asts = [], []
-for idx, name, ast, src, args in enumprog.programs(maxsize, stride=stride, offset=offset, minsize=minsize):
+dialect = sys.argv[6] if len(sys.argv) > 6 else 'A'
+for idx, name, ast, src, args in (enumprog.programs2 if dialect == 'B' else enumprog.programs)(maxsize, stride=stride, offset=offset, minsize=minsize):
     items.append((name, src, args))
     asts.append(ast)
 progs = runner.compile_programs(items, want=('machine', 'codegen'))
